@@ -783,6 +783,11 @@ func (d *Driver) nextRaw() Event {
 			if d.R.Intn(6) == 0 {
 				accused = d.pick(d.P.Nodes)
 			}
+			if k == "RecoverFaults" && d.R.Intn(5) == 0 {
+				// another storage node declares "its own" recovery - with entries that name the real accused
+				other := d.pick(d.P.Nodes)
+				creator, accused = other, other
+			}
 			return Event{Kind: k, Creator: creator, Provider: accused, Faults: fs}
 		case "Drain":
 			// a provider moves (nearly) all its money away: later pledges are taken as recorded debt
